@@ -29,8 +29,18 @@ import (
 	"verifsim/world"
 )
 
-const verifDir = "/verif"
+// verifDir: where the machinery lives (bin/check exports its own location; a background run from a
+// snapshot of /verif works on that snapshot). repoDir: the tree under test.
+var verifDir = envOr("VERIF_DIR", "/verif")
+
 const repoDir = "/repo"
+
+func envOr(k, d string) string {
+	if v := os.Getenv(k); v != "" {
+		return v
+	}
+	return d
+}
 
 var goBin = "go1.26.8"
 
